@@ -185,8 +185,30 @@ Proof.
   - vm_compute. lia.
 Qed.
 
+(** every instant of an atomic run: the invariant says the cached head is the log's head and
+    every acknowledged entry is at most that *)
+Lemma writers_crash_safe : S_writers_crash_safe.
+Proof.
+  unfold S_writers_crash_safe. intros counts sched. simpl. intros e He.
+  destruct (winv_run counts sched (winitc counts) (winv_init counts))
+    as (_ & Hc & _ & _ & Hrng & _).
+  unfold recovered. rewrite Hc. apply Hrng. exact He.
+Qed.
+
+(** T0 appends 1; T1 appends 2, persists it, rebuilds the view and returns (2 acknowledged);
+    T0 persists 1: the cached head is 1, a crash now loses entry 2. *)
+Lemma writers_refuted_crash : S_writers_refuted_crash.
+Proof.
+  unfold S_writers_refuted_crash.
+  exists [1; 1], [0; 1; 1; 1; 1; 0]. simpl. exists 2. split.
+  - vm_compute. left. reflexivity.
+  - vm_compute. lia.
+Qed.
+
 Print Assumptions writers_atomic.
 Print Assumptions writers_atomic_single.
 Print Assumptions writers_refuted_recovery.
 Print Assumptions writers_refuted_view.
 Print Assumptions writers_refuted_batch.
+Print Assumptions writers_crash_safe.
+Print Assumptions writers_refuted_crash.
